@@ -15,7 +15,7 @@
 (***************************************************************************)
 EXTENDS Names, TLC, Json
 
-CONSTANTS MaxUnits, MaxPrefixes, MaxLen
+CONSTANTS MaxUnits, MaxPrefixes, MaxLen, KindMode    \* KindMode: "all" | "parity" (kind fixed by the name)
 
 VARIABLES us, ps      \* sequences of [i, k], ascending in i
 
@@ -35,6 +35,7 @@ Init == us = <<>> /\ ps = <<>>
 AddUnit(i, k) ==
   /\ ps = <<>> /\ Len(us) < MaxUnits
   /\ (IF us = <<>> THEN TRUE ELSE us[Len(us)].i < i)
+  /\ (KindMode = "parity" => k = (IF i % 2 = 1 THEN "base" ELSE "const"))
   /\ us' = Append(us, [i |-> i, k |-> k]) /\ UNCHANGED ps
 
 \* a long prefix is entered into `units` under its own name: keep it apart from the unit names so that the
@@ -43,6 +44,7 @@ AddPrefix(i, k) ==
   /\ Len(ps) < MaxPrefixes
   /\ (IF ps = <<>> THEN TRUE ELSE ps[Len(ps)].i < i)
   /\ (k = "long" => \A j \in DOMAIN us : us[j].i # i)
+  /\ (KindMode = "parity" => k = (IF i % 3 = 0 THEN "long" ELSE "short"))
   /\ ps' = Append(ps, [i |-> i, k |-> k]) /\ UNCHANGED us
 
 AddBase == \E i \in NN : AddUnit(i, "base")
